@@ -50,14 +50,16 @@
                     fields defined on every possible object type, acyclicity as chains
                                                                               (C04_accepted_merge_sound, C04_fields_defined_on_possible,
                                                                                C04_spreads_silent_acyclic_chains)
-    NOT proved: that the overlapping-fields pass agrees with the Spec's FieldsInSetCanMerge /
-    SameResponseShape (5.3.2: completeness, and soundness in the Spec's own encoding), hence
-    validate_verdict itself; validate_error_located.  These are covered on every run by the
-    correspondence check and the Spec oracle only. *)
+                  - SOUNDNESS: accepted -> Valid, every section of chapter 5 in the Spec's own formulation,
+                    5.3.2 included                                               (C04_accepted_valid, C04_accepted_5_3_2)
+    NOT proved: the completeness half for 5.3.2 (the Spec's FieldsInSetCanMerge holds -> the
+    overlapping-fields pass reports no primary error), hence the "if" half of validate_verdict
+    (it is proved up to that: C04_verdict_up_to_merge_partial); validate_error_located.  These are
+    covered on every run by the correspondence check and the Spec oracle only. *)
 From Coq Require Import List NArith Bool.
 From ApiFu Require Import Base.Sexp Vld.Ast Vld.Inspect Vld.InspectProofs Vld.TypeInfoModel Vld.TypeInfoPure Vld.ValidatorModel Vld.ValidSpec
      Vld.Hyps Vld.ProofsCommon Vld.ProofsDirectives Vld.ProofsArguments Vld.ProofsFragDecl Vld.ProofsValues
-     Vld.ProofsCycles Vld.ProofsVarsOrder Vld.ProofsOrder Vld.ProofsOperations Vld.ProofsTotal Vld.Enumerate Vld.ProofsFields Vld.ProofsMemo Vld.ValidatorProofs Vld.ProofsSpreads Vld.ProofsSecondary Vld.ProofsSecondaryAll Vld.ProofsSpreadsSpec Vld.ProofsFieldsConverse Vld.ProofsVarsConverse Vld.ProofsComplete Vld.ProofsCollect Vld.ProofsMergeSound Vld.ProofsMergeNames Vld.ProofsMergeLocal Vld.ProofsPossibleFields Vld.ProofsSpecCollect Vld.ProofsSubscription Vld.ProofsSpecReach Vld.ProofsVarsSpec Vld.ProofsDepth Vld.ProofsDepthRule Vld.MemoTransfer Vld.ProofsMemoConverse Vld.MemoEquiv Vld.ProofsTypeInfoValues Vld.Witness.
+     Vld.ProofsCycles Vld.ProofsVarsOrder Vld.ProofsOrder Vld.ProofsOperations Vld.ProofsTotal Vld.Enumerate Vld.ProofsFields Vld.ProofsMemo Vld.ValidatorProofs Vld.ProofsSpreads Vld.ProofsSecondary Vld.ProofsSecondaryAll Vld.ProofsSpreadsSpec Vld.ProofsFieldsConverse Vld.ProofsVarsConverse Vld.ProofsComplete Vld.ProofsCollect Vld.ProofsMergeSound Vld.ProofsMergeNames Vld.ProofsMergeLocal Vld.ProofsCollectEntries Vld.ProofsMergeSpec Vld.ProofsValid Vld.ProofsPossibleFields Vld.ProofsSpecCollect Vld.ProofsSubscription Vld.ProofsSpecReach Vld.ProofsVarsSpec Vld.ProofsDepth Vld.ProofsDepthRule Vld.MemoTransfer Vld.ProofsMemoConverse Vld.MemoEquiv Vld.ProofsTypeInfoValues Vld.Witness.
 Import ListNotations.
 
 (** ** determinism: acceptance is a function of schema, features and document alone *)
@@ -562,6 +564,40 @@ Theorem C04_doc_positions_ok_spec : forall D,
   doc_positions_ok D = true -> doc_set_positions_distinct D /\ doc_field_positions_distinct D.
 Proof. exact doc_positions_ok_spec. Qed.
 
+(** ** SOUNDNESS of the validator: accepted -> Valid
+    The "only if" half of validate_verdict, for the pipeline as it is: a document ValidateDocument
+    accepts satisfies every section of chapter 5 in the Spec's own formulation, 5.3.2 included.
+    Hypotheses, all decidable and evaluated on every generated case: the five on the schema
+    ([schema_types_wf]: no field type has a non-null directly inside a non-null) and the two
+    positional ones on the document.
+    For 5.3.2 ([C04_accepted_5_3_2]) no correspondence between the order of the Spec's traversal and
+    the validator's is needed: every field the Spec collects (with the parent type it is collected
+    under) is filed by the validator as an entry; two entries under one key were compared in one
+    order or the other, or are the same entry; the Spec's comparisons are symmetric, and reflexive
+    because the selection set below every field passed the validator's check on its own; the
+    nesting fuel of the Spec is one more than the depth bound of round 4. *)
+Theorem C04_accepted_5_3_2 : forall pi S F D,
+  order_ok pi ->
+  schema_ok S = true -> schema_args_ok S = true -> schema_types_wf S = true ->
+  doc_set_positions_distinct D -> doc_field_positions_distinct D ->
+  validate_model_memo repaired pi S F D = Done [] -> valid_5_3_2 S F D = true.
+Proof. exact memo_accepted_5_3_2. Qed.
+Theorem C04_accepted_valid : forall pi S F D,
+  order_ok pi ->
+  schema_ok S = true -> schema_args_ok S = true -> schema_impls_ok S = true -> schema_defaults_ok S = true -> schema_types_wf S = true ->
+  doc_set_positions_distinct D -> doc_field_positions_distinct D ->
+  validate_model_memo repaired pi S F D = Done [] -> Valid S F D.
+Proof. exact memo_accepted_Valid. Qed.
+
+(** addFieldSelections files every collected field as an entry (the field, the parent type and the
+    position of the selection set it is written in), whatever the map it starts from (proof by the
+    C03 builder, adopted) *)
+Theorem C04_collect_entries : forall A,
+  (forall s1 s2, In s1 (all_subs A) -> In s2 (all_subs A) -> ss_pos s1 = ss_pos s2 -> s1 = s2) ->
+  forall m ss m' v, In ss (all_subs A) -> add_selections repaired A m (Some ss) = COk m' v ->
+  ents_incl m m' /\ forall w f, InCw A ss w f -> has_entry m' f (ss_ann w) (ss_pos w).
+Proof. exact add_selections_entries. Qed.
+
 (** ** validate_verdict up to 5.3.2 (partial)
     As [C04_verdict_up_to_two_rules_partial], with the subscription check replaced by the Spec's
     5.2.3.1: what separates this from validate_verdict is the equivalence of the overlapping-fields
@@ -791,6 +827,9 @@ Print Assumptions C04_spec_collected_complete.
 Print Assumptions C04_subscription_check_is_5_2_3_1.
 Print Assumptions C04_accepted_single_root.
 Print Assumptions C04_doc_positions_ok_spec.
+Print Assumptions C04_accepted_5_3_2.
+Print Assumptions C04_accepted_valid.
+Print Assumptions C04_collect_entries.
 Print Assumptions C04_verdict_up_to_merge_partial.
 Print Assumptions C04_rule_directives_iff.
 Print Assumptions C04_rule_fragment_declarations_iff.
